@@ -45,6 +45,7 @@ class Runner:
             raise vlib.BuildError("driver_c14 does not build: " + out[-3000:])
         self.n = 0
         self.san_reports = []
+        self.gave_up = False
         self.impl_s = 0.0
         self.model_s = 0.0
 
@@ -109,6 +110,12 @@ class Runner:
                                             or text[-1500:])
             self.san_reports.append(culprit)
             todo = todo[order.index(culprit) + 1:]
+            if len(self.san_reports) >= 6:
+                # the build is plainly broken (every cyclic set crashes, say): the first aborts are reported, stop here
+                self.gave_up = True
+                for k in todo:
+                    out.setdefault(k["id"], {"res": [], "again": {}, "src": None, "abort": "not run: too many sanitizer aborts before"})
+                break
         return out
 
     def model(self, cases):
@@ -317,6 +324,8 @@ def judge(case, impl, model):
     comp = [op[1] for op in case["ops"] if op[0] == "compile"]
     if impl is None:
         impl = {"res": [], "again": {}, "src": None, "abort": "no output"}
+    if impl["abort"] and impl["abort"].startswith("not run"):
+        return F, st
     if impl["abort"]:
         kind = "timeout" if impl["abort"] == "timeout" else "sanitizer-or-crash"
         F.append({"kind": kind, "sig": "C14:" + ("termination" if kind == "timeout" else "sanitizer"), "input_violation": True,
@@ -431,6 +440,70 @@ def one_shot(R, k, with_model=True):
     return judge(k, impl, model)[0]
 
 
+def _ref_texts(t, out):
+    if isinstance(t, list):
+        for x in t:
+            _ref_texts(x, out)
+    elif isinstance(t, dict):
+        for k, v in t.items():
+            if k == "__include" and isinstance(v, str):
+                out.append(v)
+            elif k == "__patch":
+                for x in (v if isinstance(v, list) else [v]):
+                    if isinstance(x, str):
+                        out.append(x)
+            _ref_texts(v, out)
+
+
+def independence_monitor(R, case):
+    """O (model-free, used to classify a minimal disagreement): a top-level section that no reference text names is
+    only a *reader* of the others, so deleting it must not change what the other sections compile to.  If it does, the
+    section wrote through an include / patch into the node it read (an include that is not a copy, a source altered)."""
+    base = R.impl([dict(case, id="ind0")]).get("ind0")
+    if not base or base["abort"]:
+        return None
+    for name, root in sorted(case["docs"].items()):
+        if not isinstance(root, dict) or "__patch" in root or "__include" in root or name.endswith(".schema"):
+            continue
+        if name.endswith(".custom") or (name + ".custom") in case["docs"]:
+            continue
+        full = [tree_of(r[2]) for r in base["res"] if r[0] == name]
+        if not full or not isinstance(full[0], dict):
+            continue
+        for sec in sorted(root):
+            rest = {k: v for k, v in root.items() if k != sec}
+            segs, reads_root = set(), False
+            for n2, t2 in case["docs"].items():
+                texts = []
+                _ref_texts(rest if n2 == name else t2, texts)
+                for t in texts:
+                    t = t.split("?")[0]
+                    d, _, pth = t.rpartition(":") if ":" in t else ("", "", t)
+                    d = d[:-5] if d.endswith(".yaml") else d
+                    if (d or n2) != name:
+                        continue
+                    if pth.strip("/") == "":
+                        reads_root = True
+                    segs.update(pth.split("/"))
+            if sec in segs or reads_root:
+                continue  # somebody may read `sec` (or the whole root of this document): not a pure reader
+            small = dict(case, id="ind1", docs=dict(case["docs"], **{name: rest}), ops=[("compile", name)])
+            got = R.impl([small]).get("ind1")
+            if not got or got["abort"] or not got["res"]:
+                continue
+            red = tree_of(got["res"][0][2])
+            if not isinstance(red, dict):
+                continue
+            for k in rest:
+                if k in full[0] and k in red and full[0][k] != red[k]:
+                    return {"kind": "alias", "sig": "C14:alias:reader-changes-source", "input_violation": True,
+                            "what": ("in %r the section %r, which nothing refers to, changes what section %r compiles to: "
+                                     "an include/patch wrote into the node it read" % (name, sec, k)),
+                            "detail": {"doc": name, "reader": sec, "changed": k, "with_reader": G.tok(full[0][k]),
+                                       "without_reader": G.tok(red[k])}}
+    return None
+
+
 def corpus_cases(R):
     out = []
     files = [os.path.join(vlib.REPO, "data", "test", n + ".yaml") for n in FIXTURES]
@@ -468,6 +541,8 @@ def run(c):
     batches = [cases[i:i + 1500] for i in range(0, len(cases), 1500)] + [arb[i:i + 500] for i in range(0, len(arb), 500)]
     samples = []
     for bi, batch in enumerate(batches):
+        if R.gave_up:
+            break
         impl = R.impl(batch)
         try:
             # cyclic sets can make the memo-less reference explode: bounded, and then only termination/monitors count
@@ -517,6 +592,12 @@ def run(c):
                              budget=120 if quick else 400)
             fs = [g for g in one_shot(R, small, True)] or [f]
         inputv = [g for g in fs if g.get("input_violation")]
+        if not inputv and f["kind"] in ("result", "ok-flag"):
+            ind = independence_monitor(R, small)
+            if ind:
+                fs.append(ind)
+                inputv = [ind]
+                sig = ind["sig"]
         main = next((g for g in fs if g["sig"] == sig), fs[0])
         if inputv:
             g = next((x for x in inputv if x["sig"] == sig), inputv[0])
@@ -563,6 +644,9 @@ def replay(c, r):
     R = Runner(c)
     k = load_case(r["case"])
     fs = one_shot(R, k, True)
+    ind = independence_monitor(R, k) if fs else None
+    if ind:
+        fs.append(ind)
     for f in fs:
         print("replay %s: %s" % (f["sig"], f["what"]))
         print("  detail:", json.dumps(f["detail"], default=str)[:1500])
